@@ -539,6 +539,28 @@ pub fn random_project(t: &mut Tape, safe: bool, avoided: &mut u64) -> Proj {
         }
         commands.push(CmdM { name, file: t.pick(n_files), is_async: t.bool(), params, ret, emits, attr });
     }
+    // one event emitted from two commands with two different payload structs that nothing else
+    // mentions: whichever site the listener is typed after, both types are part of the surface
+    if commands.len() >= 2 && t.chance(1, 6) && !structs.iter().any(|s: &StructM| s.name == "FirstSitePayload" || s.name == "SecondSitePayload") {
+        let i = t.pick(commands.len() - 1);
+        let j = i + 1 + t.pick(commands.len() - 1 - i);
+        for (idx, sname) in [(i, "FirstSitePayload"), (j, "SecondSitePayload")] {
+            structs.push(StructM { name: sname.to_string(), file: commands[idx].file, rename_all: None, fields: vec![FieldM { name: "seq".into(), ty: Ty::Prim("u32"), rename: None, skip: false, validate: None }], unit: false, noise: String::new() });
+            commands[idx].emits.push(EmitM { event: "shared-by-two-sites".into(), payload: format!("struct:{}", sname), to: None });
+            if !commands[idx].params.iter().any(|p| matches!(p, ParamM::Injected { name, .. } | ParamM::Value { name, .. } | ParamM::Channel { name, .. } if name == "app")) {
+                commands[idx].params.insert(0, ParamM::Injected { name: "app".into(), ty: "AppHandle".into() });
+                // payload indices of earlier emits point at parameters: shift them
+                for e in &mut commands[idx].emits {
+                    if let Some(n) = e.payload.strip_prefix("param:") {
+                        let n: usize = n.parse().unwrap();
+                        e.payload = format!("param:{}", n + 1);
+                    }
+                }
+            }
+        }
+        features.insert("has=event_with_two_payload_structs".into());
+        features.insert("has=events".into());
+    }
     // the common pattern `fn create_user(params: CreateUserParams)`: a project struct named like the
     // parameter object the tool derives for the command
     if t.chance(1, 5) {
@@ -584,6 +606,11 @@ pub fn random_project(t: &mut Tape, safe: bool, avoided: &mut u64) -> Proj {
             match first_payload.get(&e.event) {
                 None => {
                     first_payload.insert(e.event.clone(), kind);
+                }
+                Some(k) if *k != kind && k.starts_with("struct:") && kind.starts_with("struct:") && t.chance(1, 2) => {
+                    // one event, two emission sites, two payload structs: the listener is typed
+                    // after the first site, and that type has to be declared
+                    features.insert("has=event_with_two_payload_structs".into());
                 }
                 Some(k) if *k != kind => {
                     e.payload = "lit_str".into();
